@@ -60,140 +60,146 @@ func runC20(c *vh.Ctx) {
 		var encOps []any
 		mutations := 0
 		for _, op := range ops {
-			switch op.kind {
-			case "add":
-				_, existed := oracle[op.id]
-				got := set.Add(cedar.PolicyID(op.id), pols[op.k])
-				oracle[op.id] = op.k
-				mutations++
-				outs = append(outs, fmt.Sprint(got))
-				encOps = append(encOps, []any{"add", vh.Hex(op.id), op.k})
-				if got == existed {
-					c.Report(vh.Finding{Class: "pset-add-return", What: fmt.Sprintf("Add(%q) returned %v but id existed=%v", op.id, got, existed), Check: "oracle", Op: "pset", Input: ops})
-				}
-			case "remove":
-				_, existed := oracle[op.id]
-				got := set.Remove(cedar.PolicyID(op.id))
-				delete(oracle, op.id)
-				mutations++
-				outs = append(outs, fmt.Sprint(got))
-				encOps = append(encOps, []any{"remove", vh.Hex(op.id)})
-				if got != existed {
-					c.Report(vh.Finding{Class: "pset-remove-return", What: fmt.Sprintf("Remove(%q) returned %v but id existed=%v", op.id, got, existed), Check: "oracle", Op: "pset", Input: ops})
-				}
-			case "get":
-				p := set.Get(cedar.PolicyID(op.id))
-				k, ok := oracle[op.id]
-				s := "none"
-				if p != nil {
-					s = "p" + string(p.Annotations()["k"])
-				}
-				outs = append(outs, s)
-				encOps = append(encOps, []any{"get", vh.Hex(op.id)})
-				if (p != nil) != ok || (ok && string(p.Annotations()["k"]) != fmt.Sprint(k)) {
-					c.Report(vh.Finding{Class: "pset-get", What: fmt.Sprintf("Get(%q) = %s, map says %v/%d", op.id, s, ok, k), Check: "oracle", Op: "pset", Input: ops})
-				}
-			case "reset":
-				// UnmarshalJSON into the EXISTING set must replace its contents
-				fresh := cedar.NewPolicySet()
-				var ents []any
-				var ks []string
-				for id := range op.ents {
-					ks = append(ks, id)
-				}
-				sort.Strings(ks)
-				for _, id := range ks {
-					fresh.Add(cedar.PolicyID(id), pols[op.ents[id]])
-					ents = append(ents, []any{vh.Hex(id), op.ents[id]})
-				}
-				jb, err := fresh.MarshalJSON()
-				if err == nil {
-					err = set.UnmarshalJSON(jb)
-				}
-				if err != nil {
-					c.Report(vh.Finding{Class: "pset-json-roundtrip", What: "UnmarshalJSON into existing set failed: " + err.Error(), Check: "oracle", Op: "pset", Input: ops})
-				}
-				oracle = map[string]int{}
-				for id, k := range op.ents {
-					oracle[id] = k
-				}
-				mutations++
-				outs = append(outs, "reset")
-				if ents == nil {
-					ents = []any{}
-				}
-				encOps = append(encOps, []any{"reset", ents})
-			case "ids":
-				// MarshalCedar order == lexicographic id order: recover ids through the JSON form and the text form
-				var ids []string
-				for id := range set.Map() {
-					ids = append(ids, string(id))
-				}
-				sort.Strings(ids)
-				var want []string
-				for id := range oracle {
-					want = append(want, id)
-				}
-				sort.Strings(want)
-				if strings.Join(ids, ",") != strings.Join(want, ",") {
-					c.Report(vh.Finding{Class: "pset-contents", What: fmt.Sprintf("contents %v, map says %v", ids, want), Check: "oracle", Op: "pset", Input: ops})
-				}
-				// the marshalled text must list the policies in that order: check via the per-policy texts
-				var texts []string
-				for _, id := range want {
-					texts = append(texts, string(pols[oracle[id]].MarshalCedar()))
-				}
-				if got := string(set.MarshalCedar()); got != strings.Join(texts, "\n\n") {
-					c.Report(vh.Finding{Class: "pset-marshal-order", What: fmt.Sprintf("MarshalCedar order differs from lexicographic id order: %q", got), Check: "oracle", Op: "pset", Input: ops})
-				}
-				// JSON round trip keeps ids and contents
-				if jb, err := set.MarshalJSON(); err == nil {
-					var back cedar.PolicySet
-					if err := back.UnmarshalJSON(jb); err != nil {
-						c.Report(vh.Finding{Class: "pset-json-roundtrip", What: "UnmarshalJSON(MarshalJSON) failed: " + err.Error(), Check: "oracle", Op: "pset", Input: ops})
-					} else {
-						var bids []string
-						for id, p := range back.Map() {
-							bids = append(bids, string(id))
-							if string(p.MarshalCedar()) != string(pols[oracle[string(id)]].MarshalCedar()) {
-								c.Report(vh.Finding{Class: "pset-json-roundtrip", What: "policy changed through JSON round trip", Check: "oracle", Op: "pset", Input: ops})
+			pn := vh.Protect(func() {
+				switch op.kind {
+				case "add":
+					_, existed := oracle[op.id]
+					got := set.Add(cedar.PolicyID(op.id), pols[op.k])
+					oracle[op.id] = op.k
+					mutations++
+					outs = append(outs, fmt.Sprint(got))
+					encOps = append(encOps, []any{"add", vh.Hex(op.id), op.k})
+					if got == existed {
+						c.Report(vh.Finding{Class: "pset-add-return", What: fmt.Sprintf("Add(%q) returned %v but id existed=%v", op.id, got, existed), Check: "oracle", Op: "pset", Input: ops})
+					}
+				case "remove":
+					_, existed := oracle[op.id]
+					got := set.Remove(cedar.PolicyID(op.id))
+					delete(oracle, op.id)
+					mutations++
+					outs = append(outs, fmt.Sprint(got))
+					encOps = append(encOps, []any{"remove", vh.Hex(op.id)})
+					if got != existed {
+						c.Report(vh.Finding{Class: "pset-remove-return", What: fmt.Sprintf("Remove(%q) returned %v but id existed=%v", op.id, got, existed), Check: "oracle", Op: "pset", Input: ops})
+					}
+				case "get":
+					p := set.Get(cedar.PolicyID(op.id))
+					k, ok := oracle[op.id]
+					s := "none"
+					if p != nil {
+						s = "p" + string(p.Annotations()["k"])
+					}
+					outs = append(outs, s)
+					encOps = append(encOps, []any{"get", vh.Hex(op.id)})
+					if (p != nil) != ok || (ok && string(p.Annotations()["k"]) != fmt.Sprint(k)) {
+						c.Report(vh.Finding{Class: "pset-get", What: fmt.Sprintf("Get(%q) = %s, map says %v/%d", op.id, s, ok, k), Check: "oracle", Op: "pset", Input: ops})
+					}
+				case "reset":
+					// UnmarshalJSON into the EXISTING set must replace its contents
+					fresh := cedar.NewPolicySet()
+					var ents []any
+					var ks []string
+					for id := range op.ents {
+						ks = append(ks, id)
+					}
+					sort.Strings(ks)
+					for _, id := range ks {
+						fresh.Add(cedar.PolicyID(id), pols[op.ents[id]])
+						ents = append(ents, []any{vh.Hex(id), op.ents[id]})
+					}
+					jb, err := fresh.MarshalJSON()
+					if err == nil {
+						err = set.UnmarshalJSON(jb)
+					}
+					if err != nil {
+						c.Report(vh.Finding{Class: "pset-json-roundtrip", What: "UnmarshalJSON into existing set failed: " + err.Error(), Check: "oracle", Op: "pset", Input: ops})
+					}
+					oracle = map[string]int{}
+					for id, k := range op.ents {
+						oracle[id] = k
+					}
+					mutations++
+					outs = append(outs, "reset")
+					if ents == nil {
+						ents = []any{}
+					}
+					encOps = append(encOps, []any{"reset", ents})
+				case "ids":
+					// MarshalCedar order == lexicographic id order: recover ids through the JSON form and the text form
+					var ids []string
+					for id := range set.Map() {
+						ids = append(ids, string(id))
+					}
+					sort.Strings(ids)
+					var want []string
+					for id := range oracle {
+						want = append(want, id)
+					}
+					sort.Strings(want)
+					if strings.Join(ids, ",") != strings.Join(want, ",") {
+						c.Report(vh.Finding{Class: "pset-contents", What: fmt.Sprintf("contents %v, map says %v", ids, want), Check: "oracle", Op: "pset", Input: ops})
+					}
+					// the marshalled text must list the policies in that order: check via the per-policy texts
+					var texts []string
+					for _, id := range want {
+						texts = append(texts, string(pols[oracle[id]].MarshalCedar()))
+					}
+					if got := string(set.MarshalCedar()); got != strings.Join(texts, "\n\n") {
+						c.Report(vh.Finding{Class: "pset-marshal-order", What: fmt.Sprintf("MarshalCedar order differs from lexicographic id order: %q", got), Check: "oracle", Op: "pset", Input: ops})
+					}
+					// JSON round trip keeps ids and contents
+					if jb, err := set.MarshalJSON(); err == nil {
+						var back cedar.PolicySet
+						if err := back.UnmarshalJSON(jb); err != nil {
+							c.Report(vh.Finding{Class: "pset-json-roundtrip", What: "UnmarshalJSON(MarshalJSON) failed: " + err.Error(), Check: "oracle", Op: "pset", Input: ops})
+						} else {
+							var bids []string
+							for id, p := range back.Map() {
+								bids = append(bids, string(id))
+								if string(p.MarshalCedar()) != string(pols[oracle[string(id)]].MarshalCedar()) {
+									c.Report(vh.Finding{Class: "pset-json-roundtrip", What: "policy changed through JSON round trip", Check: "oracle", Op: "pset", Input: ops})
+								}
+							}
+							sort.Strings(bids)
+							if strings.Join(bids, ",") != strings.Join(want, ",") {
+								c.Report(vh.Finding{Class: "pset-json-roundtrip", What: fmt.Sprintf("ids after JSON round trip %v want %v", bids, want), Check: "oracle", Op: "pset", Input: ops})
 							}
 						}
-						sort.Strings(bids)
-						if strings.Join(bids, ",") != strings.Join(want, ",") {
-							c.Report(vh.Finding{Class: "pset-json-roundtrip", What: fmt.Sprintf("ids after JSON round trip %v want %v", bids, want), Check: "oracle", Op: "pset", Input: ops})
-						}
 					}
+					// Map() is a copy
+					m := set.Map()
+					m["__intruder"] = pols[0]
+					delete(m, cedar.PolicyID(firstOr(want)))
+					if set.Get("__intruder") != nil || (len(want) > 0 && set.Get(cedar.PolicyID(want[0])) == nil) {
+						c.Report(vh.Finding{Class: "pset-map-alias", What: "mutating Map() changed the set", Check: "oracle", Op: "pset", Input: ops})
+					}
+					var hx []string
+					for _, id := range ids {
+						hx = append(hx, vh.Hex(id))
+					}
+					outs = append(outs, strings.Join(hx, ","))
+					encOps = append(encOps, []any{"ids"})
+				case "authz":
+					env := envs[op.k]
+					req, _ := vh.RequestOf(env.Env)
+					d, diag := cedar.Authorize(set, env.Env.Entities, req)
+					got := vh.ShowAuthz(d, diag)
+					// oracle: authorize the map's contents as a fresh slice iterator
+					var ps []vh.IDPolicy
+					for id, k := range oracle {
+						ps = append(ps, vh.IDPolicy{ID: cedar.PolicyID(id), AST: asts[k], P: pols[k]})
+					}
+					want := vh.SpecAuthz(ps, env.Env)
+					if got != want {
+						c.Report(vh.Finding{Class: "pset-authz-contents", What: fmt.Sprintf("Authorize on the set = %q, on the map contents = %q", got, want), Check: "oracle", Op: "pset", Input: ops})
+					}
+					outs = append(outs, got)
+					encOps = append(encOps, []any{"authz", env.Name})
 				}
-				// Map() is a copy
-				m := set.Map()
-				m["__intruder"] = pols[0]
-				delete(m, cedar.PolicyID(firstOr(want)))
-				if set.Get("__intruder") != nil || (len(want) > 0 && set.Get(cedar.PolicyID(want[0])) == nil) {
-					c.Report(vh.Finding{Class: "pset-map-alias", What: "mutating Map() changed the set", Check: "oracle", Op: "pset", Input: ops})
-				}
-				var hx []string
-				for _, id := range ids {
-					hx = append(hx, vh.Hex(id))
-				}
-				outs = append(outs, strings.Join(hx, ","))
-				encOps = append(encOps, []any{"ids"})
-			case "authz":
-				env := envs[op.k]
-				req, _ := vh.RequestOf(env.Env)
-				d, diag := cedar.Authorize(set, env.Env.Entities, req)
-				got := vh.ShowAuthz(d, diag)
-				// oracle: authorize the map's contents as a fresh slice iterator
-				var ps []vh.IDPolicy
-				for id, k := range oracle {
-					ps = append(ps, vh.IDPolicy{ID: cedar.PolicyID(id), AST: asts[k], P: pols[k]})
-				}
-				want := vh.SpecAuthz(ps, env.Env)
-				if got != want {
-					c.Report(vh.Finding{Class: "pset-authz-contents", What: fmt.Sprintf("Authorize on the set = %q, on the map contents = %q", got, want), Check: "oracle", Op: "pset", Input: ops})
-				}
-				outs = append(outs, got)
-				encOps = append(encOps, []any{"authz", env.Name})
+			})
+			if pn != nil {
+				c.Report(vh.Finding{Class: "pset-panic", What: fmt.Sprintf("operation %s panicked after the preceding history: %v", op.kind, pn), Check: "oracle", Op: "pset", Input: ops})
+				break
 			}
 			c.Res.OracleChecks++
 		}
